@@ -64,7 +64,19 @@ func New() *M {
 	m.VM = goatlang.New(goatlang.WithStdout(m.Out))
 	m.Ctx = &goatlang.VerifCtx{MaxSteps: DefaultSteps, MaxDepth: DefaultDepth}
 	goatlang.VerifAttach(m.VM, m.Ctx)
+	Sandbox(m.VM)
 	return m
+}
+
+// Sandbox replaces the natives that touch the environment: enumerated inputs (and the repository's own
+// test-table strings) may call os.WriteFile / os.ReadFile / time.Sleep; inside the checks they must neither
+// write files nor stall.  time.Sleep keeps its one observable effect for the VM: it yields.
+func Sandbox(vm *goatlang.VM) {
+	vm.Set("os.WriteFile", goatlang.NewFunc(3, 1, func(v *goatlang.VM, args []goatlang.Value) goatlang.Value { return goatlang.Nil() }))
+	vm.Set("os.ReadFile", goatlang.NewFunc(1, 2, func(v *goatlang.VM, args []goatlang.Value) []goatlang.Value {
+		return []goatlang.Value{goatlang.NewSlice(goatlang.TypeUint8, nil), goatlang.Nil()}
+	}))
+	vm.Set("time.Sleep", goatlang.NewFunc(1, 0, func(v *goatlang.VM, args []goatlang.Value) { v.Yield() }))
 }
 
 // Close releases the context registration (the registry is keyed by pointer).
